@@ -141,6 +141,10 @@ def main():
         confirm['confirmed'] = ('278 passed' in confirm['suite_with_change']
                                 and rc1 != 0 and rc2 == 0)
     shutil.copy(os.path.join(wt, 'demo.py'), os.path.join(dest, 'demo.py'))
+    if os.path.exists(os.path.join(wt, 'demo_expected.json')):
+        # a demo that compares with values recorded on the unmodified code
+        shutil.copy(os.path.join(wt, 'demo_expected.json'),
+                    os.path.join(dest, 'demo_expected.json'))
     results = run_checks(os.path.join(dest, 'patch.diff'))
     detected_by = sorted(p for p, r in results.items()
                          if isinstance(r, dict) and r.get('rc') == 1)
